@@ -16,7 +16,8 @@ use std::sync::Arc;
 fn grammar<'a>(t: [u8; 4]) -> impl Parser<'a, I<'a>, Tr, X<'a>> + Clone {
     or(
         then(j(t[0]), rep_inf(j(t[1]), 0)),
-        rec_via(then(j(t[2]), j(t[3])), to_(ornot(any_()), 0xFB)),
+        // (a fallback that can itself FAIL: a strategy that gave up on one input must be tried again on the next)
+        rec_via(then(j(t[2]), j(t[3])), to_(j(t[1]), 0xFB)),
     )
 }
 
@@ -35,7 +36,7 @@ macro_rules! same_result {
 }
 
 /// @harness props=C13:Q,C20:T n=2 err=Cheap timeout=900
-/// @shape p = (t0 t1*) | (t2 t3).recover_with(via_parser(any?)) ; history: p.parse(x1); p.parse(x2); compare the 2nd with fresh(p).parse(x2)
+/// @shape p = (t0 t1*) | (t2 t3).recover_with(via_parser(t1)) ; history: p.parse(x1); p.parse(x2); compare the 2nd with fresh(p).parse(x2)
 /// @symbolic t0..t3: u8; two independent inputs x1, x2 of length 0..=2 (all orders of failing / succeeding / recovering first parses)
 /// @aims no state survives from one parse to the next on the same parser value
 pub fn c13_history_body<S: Src>(s: &mut S) {
@@ -51,6 +52,7 @@ pub fn c13_history_body<S: Src>(s: &mut S) {
     same_result!("C13:second-parse-equals-fresh-parser", second, fresh);
     cover!("cover:fail-then-succeed", !first.has_output() && x2.len() == 2 && x2[0] == t[0] && x2[1] == t[1]);
     cover!("cover:recover-then-fail", first.has_errors() && first.has_output());
+    cover!("cover:strategy-gave-up-then-recovers", !first.has_output() && x1.len() == 1 && x2.len() == 1 && x2[0] == t[1] && t[1] != t[0] && t[1] != t[2]);
 }
 
 /// the same grammar used through one forwarding impl (K): after a first parse on x1, the wrapper parses x2
